@@ -478,8 +478,21 @@ def process_stage(ctx, stage):
                        "broken": "the implementation's own observation violates the property checker (%s)" % meta.get("check", stage.get("check", "")),
                        "case_index": g, "case": rd, "other_failing": [r for _, r in unknown_pf[1:6]],
                        "failing_count": len(unknown_pf)}, "replay_%s_propfail.json" % name)
+        ctx.found_input = ctx.violations[-1][0]
         return
     mm = [(g, rd) for g, rd in mm if g not in known_idx]
+    if mm and getattr(ctx, "found_input", None):
+        # a concrete failing input was already found by an earlier stage of this run: no second search,
+        # the broken correspondence of this stage is attached to that replay
+        mm.sort(key=lambda x: size_of(x[1]))
+        try:
+            with open(ctx.found_input) as f:
+                rep0 = json.load(f)
+            rep0.setdefault("other_stage_mismatches", []).append({"stage": name, "count": len(mm), "first": mm[0][1]})
+            write_json(ctx.found_input, rep0)
+        except Exception:
+            pass
+        return
     if mm:
         mm.sort(key=lambda x: size_of(x[1]))
         # correspondence broken: search for a concrete failing input
